@@ -212,6 +212,17 @@ def cli_determinism(chk, pid, tier, seed):
         b"p = q + r; q = r + 1; r = 1 + 1; s = p + q + r; p",
         b"x = u + v + w + y + z; u = 0 + 0; v = 0 + 0; w = 0 + 0; y = 0 + 0; z = 0 + 0; k = x + u + v; k",
         b"(true + 1) + (false + 2) + (type + 3)", b"a + b + c + d", b"x => x => x => y", b"( ( (", b"1 $ 2 @ 3 ~ 4",
+        # several diagnostics of ONE kind from ONE construct (any of them could be collected through a hash container)
+        b"alpha = 1; beta = 2; gamma = 3; (alpha = 4; beta = 5; gamma = 6; alpha)",
+        b"a = 1; b = 2; c = 3; d = 4; (d = 0; c = 0; b = 0; a = 0; a + b + c + d)",
+        b"p => q => r => (p = 1; q = 2; r = 3; p)",
+        b"f = (x : int) => (y : int) => (z : int) => (x = 1; y = 2; z = 3; x); f",
+        b"u + v + w + u + v + w",
+        b"(x : a) -> (y : b) -> (z : c) -> d",
+        b"m = n + o + p + q; n = 1 + 1; o = 2 + 2; p = 3 + 3; q = 4 + 4; r = m + n + o + p + q; r",
+        b"1 + true + false + type + int + bool",
+        b"if 1 then (if 2 then (if 3 then 4 else 5) else 6) else 7",
+        b"(1 2) (3 4) (5 6) (7 8)",
     ]
     files.extend(multi)
     progs = _programs(chk, "C01", tier, seed, 120 if tier == "quick" else 600)
